@@ -22,7 +22,7 @@ def run(ctx):
                        "result vs the source run by the interpreter: integer results equal (+-1 on at most max(1, n/50) cells), float64 to 1e-9 "
                        "relative, float32 inputs/outputs to 2e-5; the parallel cube smoother three times on a 40x8x6 cube; digamma / gammainc / "
                        "ndtri called from nopython code vs scipy.special, bit for bit")
-    ctx.notes.update(programs=len(res["per_kernel"]), disagreements_checked=res["runs"] + res["special"]["evaluations"], per_kernel=res["per_kernel"], integer_cells_off_by_one=res["ties"],
+    ctx.notes.update(programs=len(res["per_kernel"]), disagreements_checked=res["runs"] + res["special"]["evaluations"], per_kernel=res["per_kernel"], integer_cells_off_by_one=res["ties"], out_of_domain_skipped=res.get("out_of_domain", 0),
                      special_function_evaluations=res["special"]["evaluations"], special_function_mismatches=res["special"]["mismatches"])
     ctx.add_samples([dict(kernel=k, **v) for k, v in list(res["per_kernel"].items())[:3]])
     ctx.assumptions += ["inputs that make the interpreter raise where compiled code follows IEEE (log(0), x/0.0) count as in-domain and are compared "
